@@ -30,7 +30,11 @@ def run_level_shard(mod, shard, tier, depth_limit):
         if model is None:
             continue
         res["states"] += 1
-        fails, counters = mod.check_state(hist, model, tier)
+        try:
+            with mgraph.time_limit(getattr(mod, "STATE_TIMEOUT", 300)):
+                fails, counters = mod.check_state(hist, model, tier)
+        except mgraph.CallTimeout:
+            fails, counters = [], {"state_timeouts": 1}
         for k, v in counters.items():
             res[k] = res.get(k, 0) + v
         res["evaluations"] += 1
